@@ -315,9 +315,68 @@ def identity_items(tier):
                     yield ("id", (N, K, D, us[i:i + 60]))
 
 
+def check_size_history(item, acc):
+    """every ordered sequence of model sizes N_1, N_2, N_3 evaluated in ONE freshly loaded copy of the model module (so module-level
+    state - a table grown on demand, a memo keyed by d - starts empty and is then carried from model to model exactly as in a user's
+    process): log_kappa and the expected degrees of the homogeneous model u = c 1, w = (a) against their closed forms
+    kappa_d = C(N-2, d-2) d (d-1) / 2 and E[deg_i at size d] = c^2 a (N-1) / (d-1)."""
+    import importlib
+    import sys
+
+    name = "hypergraphx.communities.hy_mmsbm.model"
+    importlib.import_module(name)
+    saved = sys.modules.pop(name)
+    try:
+        fresh = importlib.import_module(name)
+    finally:
+        sys.modules[name] = saved
+        import hypergraphx.communities.hy_mmsbm as _pkg
+        _pkg.model = saved
+    wit = {"part": "size-history", "sizes": list(item)}
+
+    def bad(what, msg):
+        acc.violations.append(Violation("size-history/%s" % what, "%s; models of sizes %r evaluated in this order in one process" % (msg, list(item)), wit, len(item)))
+
+    c, a = 0.5, 2.0
+    for step, N in enumerate(item):
+        acc.evaluations += 1
+        try:
+            m = fresh.HyMMSBM(u=np.full((N, 1), c), w=np.array([[a]]), max_hye_size=N)
+            ds = list(range(2, N + 1))
+            want = [math.log(kappa_def(N, d)) for d in ds]
+            for d, wd in zip(ds, want):
+                if not close(m.log_kappa(d), wd):
+                    bad("log_kappa", "step %d N=%d: log_kappa(%d)=%r, definition %r" % (step, N, d, m.log_kappa(d), wd))
+                    break
+            if not close(m.log_kappa(np.array(ds)), want):
+                bad("log_kappa", "step %d N=%d: log_kappa(array) differs from the definition" % (step, N))
+            deg = sum(c * c * a * (N - 1) / (d - 1) for d in ds)
+            got = m.expected_degree(per_node=False, d="all")
+            if not close(got, deg, 1e-8):
+                bad("expected_degree-average", "step %d N=%d: %r, closed form %r" % (step, N, got, deg))
+            got = m.expected_degree(per_node=True, d="all")
+            if not close(got, [deg] * N, 1e-8):
+                bad("expected_degree-per-node", "step %d N=%d: %r, closed form %r" % (step, N, np.asarray(got).tolist(), deg))
+        except Exception as e:
+            bad("exception", "step %d N=%d raised %s: %s" % (step, N, type(e).__name__, e))
+            return
+    acc.outcomes.add(hash(("size-history", tuple(item))))
+    if len(set(item)) >= 2:
+        acc.nontrivial.add(hash(("size-history", tuple(item))))
+
+
+def size_history_items(tier):
+    sizes = (3, 4, 6, 9, 13) if tier == "quick" else (3, 4, 5, 6, 8, 11, 15, 22)
+    for r in (1, 2, 3):
+        for hist in itertools.product(sizes, repeat=r):
+            yield ("sizes", hist)
+
+
 def worker(part, acc):
     for kind, item in part:
-        if kind == "id":
+        if kind == "sizes":
+            check_size_history(item, acc)
+        elif kind == "id":
             check_identities(item, acc)
         else:
             check_fit(item, acc)
@@ -329,11 +388,12 @@ def run(ctx):
     seam_report = _validate_seams(PROP)  # real random sources under a recorder: every API reached must be modelled (else exit 2)
     ids = list(identity_items(ctx.tier))
     fits = list(fit_items(ctx.tier))
-    items = ids + fits
+    hists = list(size_history_items(ctx.tier))
+    items = ids + fits + hists
     k = ctx.jobs * 8
     shards = [items[i::k] for i in range(k)]
     ev, nt, oc = run_e4(ctx, [it for s in shards for it in s], worker, nchunks=k)
-    ctx.part("inputs", identity_blocks=len(ids), fit_configurations=len(fits), evaluations=ev,
+    ctx.part("inputs", identity_blocks=len(ids), fit_configurations=len(fits), size_histories=len(hists), evaluations=ev,
              ascent_sequences=ctx.counts.get("fit-ascent-sequences", 0))
     if not [v for v in ctx.violations if "w_prior>0/exact" not in v]:
         ctx.require(ctx.counts.get("fit-ascent-sequences", 0) > 200, "too few non-vacuous ascent sequences")
@@ -346,7 +406,9 @@ def run(ctx):
         "evaluations": ev, "distinct_nontrivial": len(nt), "exhaustive": True, "distinct_outcomes": len(oc),
         "ascent_sequences_checked": ctx.counts.get("fit-ascent-sequences", 0),
         "ascent_sequences_vacuous": ctx.counts.get("fit-ascent-vacuous(max_hye_size below the data or zero rate)", 0),
-        "rule": "identities: N in {3,4}, K in {1,2}, D in 2..N, u over the full grid {0,1/2,1}^(NxK) (NK<=6; NK=8: {1/2,1}^8 quick, full grid thorough), w over all "
+        "rule": "size histories: every ordered sequence of 1-3 model sizes from {3,4,6,9,13} (thorough: 8 sizes up to 22) evaluated in one freshly "
+                "loaded copy of the model module - log_kappa and expected degrees of the homogeneous model against closed forms (module-level state "
+                "carried from one model to the next). identities: N in {3,4}, K in {1,2}, D in 2..N, u over the full grid {0,1/2,1}^(NxK) (NK<=6; NK=8: {1/2,1}^8 quick, full grid thorough), w over all "
                 "symmetric matrices with entries {0,1,2}; every quantity compared with brute force over ALL hyperedges of size 2..D. fit: hypergraphs with 2-3 "
                 "hyperedges of size 2-3 on 4 nodes (every 7th quick / every 2nd thorough), weighted and not, x {u,w supplied or not} x assortative x priors "
                 "{0,1} x max_hye_size {None,4} x n_iter 1..5, the initial draw ranging over a menu (choice point). Non-trivial = identity input with a positive "
@@ -361,7 +423,9 @@ def replay(witness, key=None):
     from ..e4 import Acc
 
     acc = Acc()
-    if witness["part"] == "identities":
+    if witness["part"] == "size-history":
+        check_size_history(tuple(witness["sizes"]), acc)
+    elif witness["part"] == "identities":
         u = np.array(witness["u"]).reshape(-1)
         check_identities((witness["N"], witness["K"], witness["D"], [tuple(u.tolist())]), acc)
     else:
